@@ -53,6 +53,10 @@ UNHASHABLE = {
     "u_vec": "[1]", "u_map": "{}", "u_inst": "KI.new()", "u_tvec": "(1, [2])", "u_fn": "|| { return 1; }",
     "u_runner": "runner", "u_runnervec": "[runner]", "u_runnertuple": "(1, runner)",
     "u_iter": "[1].iter()", "u_tnest": '((1, [2]), "x")', "u_map2": "{1: 2}", "u_fiber": "Fiber.new(|| { return 1; })",
+    # one of every other kind of value that has no hash, bare and inside a tuple
+    "u_riter": "(0..3).iter()", "u_triter": "(1, (0..3).iter())", "u_titer": "(1, 2).iter()", "u_siter": '"ab".iter()', "u_tsiter": '("ab".iter(), 1)',
+    "u_miter": "[1].iter().map(|x| { return x; })", "u_native": "type", "u_tnative": "(type, 1)", "u_bnative": "[1].push", "u_tbnative": '(1, "ab".len)',
+    "u_tfiber": "(Fiber.new(|| { return 1; }),)", "u_tfn": "(1, (2, || { return 1; }))",
 }
 CLASS_NAMES = {"Num": "Num", "KA#1": "KA", "KA#2": "KA", "Vec": "Vec"}
 
